@@ -310,6 +310,7 @@ fn apply_feed(
     log: &mut LogHash,
     vs: &mut Vec<V>,
     at: usize,
+    reader_arena: Option<&mut ByteArena>,
 ) -> Vec<u8> {
     let a = op.a;
     let (method, src): (u64, &'static [u8]) = match op.k {
@@ -345,7 +346,12 @@ fn apply_feed(
             *largest_alloc = (*largest_alloc).max(count);
             let att = NonZeroUsize::new(attempts).unwrap();
             let got: Result<usize, std::io::ErrorKind> = if method == 2 {
-                match enc.read_n(&mut reader, count, att) {
+                // The reader may own its buffers (an arena that is not the encoder's).
+                let read = match reader_arena {
+                    Some(arena) if (a[3] >> 5) % 2 == 0 => arena.read_n(&mut reader, count, att),
+                    _ => enc.read_n(&mut reader, count, att),
+                };
+                match read {
                     Ok(s) => {
                         let n = s.slice().len();
                         if s.slice() != &src[..n.min(src.len())] {
@@ -471,7 +477,7 @@ impl Run<'_> {
                         enc.encode_copy(&src[..n]);
                         src[..n].to_vec()
                     } else {
-                        apply_feed(&mut enc, op, &plain, self.m1, self.m2, self.hard, true, &mut la, &mut scratch_stats, &mut scratch_log, &mut scratch_vs, i)
+                        apply_feed(&mut enc, op, &plain, self.m1, self.m2, self.hard, true, &mut la, &mut scratch_stats, &mut scratch_log, &mut scratch_vs, i, None)
                     };
                     plain.extend_from_slice(&bytes);
                 }
@@ -499,6 +505,7 @@ impl Run<'_> {
         }
         let mut enc = Enc::new(self.public, iov, m1, m2);
         let mut spare: Option<ByteArena> = None;
+        let mut reader_arena = ByteArena::new();
         let mut plain: Vec<u8> = Vec::new();
         let mut wire: Vec<u8> = Vec::new();
         let mut largest_alloc = 0usize;
@@ -514,7 +521,7 @@ impl Run<'_> {
             match op.k {
                 "feed" | "lit" | "pad_to" => {
                     let mut vs = Vec::new();
-                    let bytes = apply_feed(&mut enc, op, &plain, m1, m2, self.hard, false, &mut largest_alloc, stats, log, &mut vs, i);
+                    let bytes = apply_feed(&mut enc, op, &plain, m1, m2, self.hard, false, &mut largest_alloc, stats, log, &mut vs, i, Some(&mut reader_arena));
                     for v in vs {
                         self.push(v.prop, v.inv, v.detail, v.at);
                     }
@@ -532,7 +539,10 @@ impl Run<'_> {
                         Err(d) => self.push("C09", "C09.drain_ret", format!("encoder: {}", d), i),
                     }
                 }
-                "earena" => arena_op(enc.consumer(), op.a[0], op.a[1] as usize, &mut spare, stats),
+                "earena" => {
+                    arena_op(enc.consumer(), op.a[0], op.a[1] as usize, &mut spare, stats);
+                    reader_arena.flush_cache();
+                }
                 _ => continue,
             }
             stats.ops_executed += 1;
@@ -687,6 +697,7 @@ impl Run<'_> {
         let mut out: Vec<u8> = Vec::new();
         let mut pos = 0usize;
         let mut rejected = false;
+        let mut failed_reads = 0u32;
         let mut vs: Vec<V> = Vec::new();
         let tail_method = plan.knob("tail_method");
         let ops: Vec<(usize, &Op)> = if scheduled {
@@ -697,6 +708,7 @@ impl Run<'_> {
         let tail = Op::new("dfeed", [tail_method, usize::MAX as u64 >> 1, 0, 0]);
         let mut steps: Vec<(usize, &Op)> = ops;
         steps.push((usize::MAX, &tail));
+        let steps_copy = steps.clone();
         for (i, op) in steps {
             if rejected {
                 break;
@@ -773,6 +785,10 @@ impl Run<'_> {
                             if got != want.result {
                                 vs.push(V { prop: "C17", inv: "C17.result", detail: format!("decoder read returned {:?}, reference {:?}", got, want.result), at: i });
                             }
+                            if got.is_err() {
+                                failed_reads += 1;
+                                stats.bump("probe.decode_read_failed_midstream");
+                            }
                             pos += reader.pos;
                         }
                     }
@@ -829,6 +845,54 @@ impl Run<'_> {
         log.u64(accepted as u64);
         if accepted {
             log.bytes(&out);
+        }
+        let matches_expected = match (accepted, expected) {
+            (true, Some(e)) => &out == e,
+            (false, None) => true,
+            _ => false,
+        };
+        if !matches_expected && failed_reads > 0 {
+            // Did the failed reads matter?  Same pieces in the same order, but the
+            // reader-driven calls are replaced by copies of what the readers
+            // delivered (nothing, for the failed ones).
+            let mut d2 = Dec::new(self.public, OwningIovec::new(), m1, m2);
+            let mut out2: Vec<u8> = Vec::new();
+            let mut pos2 = 0usize;
+            let mut rej2 = false;
+            let mut scratch = Stats::default();
+            for (_, op) in &steps_copy {
+                if rej2 || op.k != "dfeed" {
+                    if op.k == "ddrain" && !rej2 {
+                        let _ = drain(d2.consumer(), op.a[0], op.a[1] as usize, &mut out2, &mut scratch);
+                    }
+                    continue;
+                }
+                let len = (op.a[1] as usize).min(wire.len() - pos2);
+                let piece = &wire[pos2..pos2 + len];
+                let n = if op.a[0] % 4 >= 2 {
+                    let (script, tail_eof) = script_from(op.a[2], self.hard);
+                    ref_read_n(piece.len(), &script, tail_eof, len, attempts_from(op.a[2] >> 7)).result.unwrap_or(0)
+                } else {
+                    len
+                };
+                rej2 = d2.decode_copy(&piece[..n]).is_err();
+                pos2 += n;
+            }
+            let acc2 = !rej2 && match d2.finish() {
+                Ok(iov) => {
+                    out2.extend_from_slice(&iov.flatten().unwrap_or_else(|v| v));
+                    true
+                }
+                Err(_) => false,
+            };
+            let ok2 = match (acc2, expected) {
+                (true, Some(e)) => &out2 == e,
+                (false, None) => true,
+                _ => false,
+            };
+            if ok2 {
+                vs.push(V { prop: "C17", inv: "C17.decoder_output_after_failed_read", detail: format!("after {} failed read(s) that delivered nothing the decoder's result is wrong; with those calls left out it is right", failed_reads), at: usize::MAX });
+            }
         }
         match (accepted, expected) {
             (true, Some(e)) if &out == e => {}
@@ -1150,7 +1214,7 @@ pub struct LongWorld;
 pub const LONG_KINDS: &[&str] = &["burst"];
 
 fn schedule_is_small(s: u64) -> bool {
-    s == 5
+    s == 5 || s == 7
 }
 
 pub fn footprint_bound(largest_alloc: usize, objects: usize) -> usize {
@@ -1192,7 +1256,7 @@ impl World for LongWorld {
         // Stratified by run index so that every batch covers the piece
         // schedules x arena ownership x input-method mixes that matter.
         let lane = index / 4 * 3 + index % 4; // indices with index % 4 == 3 are reader logs
-        knobs.insert("schedule".into(), lane % 6);
+        knobs.insert("schedule".into(), lane % 8);
         let method_sets = [4u64, 15, 8, 5, 2, 1, 12, 3];
         knobs.insert("methods".into(), method_sets[((lane / 12) % 8) as usize]);
         knobs.insert("dec_methods".into(), [2u64, 7, 1, 4][((lane / 3) % 4) as usize]);
@@ -1207,7 +1271,7 @@ impl World for LongWorld {
             // A long log read back through StreamReader.
             knobs.insert("reader_log".into(), 1);
             knobs.insert("keep_total_mib".into(), if ask.thorough { *rng.pick(&[32u64, 64, 128]) } else { 16 });
-            knobs.insert("record_class".into(), rng.below(6));
+            knobs.insert("record_class".into(), (index / 4) % 7);
             knobs.insert("block".into(), *rng.pick(&[0u64, 7, 4096, 65536, 65536, 0]));
             return Plan { world: "longrun", mode: "long-log".into(), seed, index, knobs, ops: Vec::new() };
         }
@@ -1321,14 +1385,36 @@ fn long_run(plan: &Plan, stats: &mut Stats, log: &mut LogHash, vs: &mut Vec<V>, 
                     rng.range(60_000, 70_000) as usize
                 }
                 4 => *rng.pick(&[64008usize, 64008, 64007, 64009, 252, 4096]),
-                _ => *rng.pick(&[32usize, 32, 48, 100]),
+                5 => *rng.pick(&[32usize, 32, 48, 100]),
+                // A trickling, flaky source: see the read below.
+                7 => *rng.pick(&[100usize, 100, 7, 300]),
+                // Very large single calls (more than the largest arena chunk).
+                _ => *rng.pick(&[1usize << 20, (1 << 20) + 4097, 3 << 19, 2 << 20, 70_000, 1000]),
             }
         }
-        .min(total - fed)
-        .min(rlen / 2);
-        let off = roff + (rng.below((rlen - len) as u64) as usize);
+        .min(total - fed);
+        let (off, len) = if len > rlen / 2 {
+            // Huge pieces span pool regions (any alphabet mix).
+            let len = len.min(POOL_SIZE - 1);
+            (rng.below((POOL_SIZE - len) as u64) as usize, len)
+        } else {
+            (roff + (rng.below((rlen - len) as u64) as usize), len)
+        };
         let piece: &'static [u8] = &pool()[off..off + len];
-        let m = pick_bit(&mut rng, methods, 4);
+        let m = if schedule == 7 { 3 } else { pick_bit(&mut rng, methods, 4) };
+        if schedule == 7 && *calls % 2 == 1 {
+            // The source is not ready: a large read that fails before delivering
+            // anything.  It must leave nothing behind.
+            let mut reader = SimReader::new(piece, vec![Step::Fail(std::io::ErrorKind::WouldBlock)], false);
+            let r = enc.encode_read(&mut reader, 65_536, NonZeroUsize::new(1).unwrap());
+            if r.is_ok() {
+                push_v(vs, "C17", "C17.result", "encode_read succeeded although the reader failed first".into());
+            }
+            largest_alloc = largest_alloc.max(65_536);
+            stats.bump("fault.hard_error");
+            *calls += 1;
+            continue;
+        }
         let delivered = match m {
             0 => {
                 enc.encode(piece);
@@ -1339,7 +1425,7 @@ fn long_run(plan: &Plan, stats: &mut Stats, log: &mut LogHash, vs: &mut Vec<V>, 
                 len
             }
             _ => {
-                let (sc, tail) = script_from(script(&mut rng), false);
+                let (sc, tail) = script_from(if schedule == 7 { 0 } else { script(&mut rng) }, false);
                 let mut reader = SimReader::new(piece, sc, tail);
                 largest_alloc = largest_alloc.max(len);
                 let att = NonZeroUsize::new(usize::MAX).unwrap();
@@ -1353,6 +1439,10 @@ fn long_run(plan: &Plan, stats: &mut Stats, log: &mut LogHash, vs: &mut Vec<V>, 
                     let n = s.slice().len();
                     enc.encode_anchored(s);
                     n
+                } else if schedule == 7 {
+                    // Ask for a whole block, get a trickle.
+                    largest_alloc = largest_alloc.max(65_536);
+                    enc.encode_read(&mut reader, 65_536, NonZeroUsize::new(1).unwrap()).expect("harness: fault-free reader failed")
                 } else {
                     enc.encode_read(&mut reader, len, att).expect("harness: fault-free reader failed")
                 };
